@@ -27,10 +27,13 @@ pub fn gen_case(rng: &mut Rng, case: u64) -> MpCase {
     let dir = rng.sign();
     // speeds inside the limit by construction: max_vel * u with |u| <= 1 (the f32 product cannot exceed max_vel)
     let u0 = match rng.below(4) { 0 => 0.0, 1 => 1.0, _ => rng.uniform(-1.0, 1.0) } as f32;
-    let u1 = match rng.below(4) { 0 | 1 => 0.0, _ => rng.uniform(-1.0, 1.0) } as f32;
+    let u1 = match rng.below(6) { 0 | 1 => 0.0, 2 => -(u0 as f64), 3 => u0 as f64, _ => rng.uniform(-1.0, 1.0) } as f32; // incl. end speed = -/+ start speed exactly
     let mut v0 = max_vel * u0;
     let mut v1 = max_vel * u1;
-    let end_acc = if rng.chance(0.3) { rng.moderate_nz(1e2) } else { 0.0 };
+    // non-zero but tiny end velocity / acceleration still decide the end command's kind
+    let tiny = |rng: &mut Rng| (rng.sign() * rng.log_uniform(1e-12, 2e-7)) as f32;
+    let end_acc = if rng.chance(0.3) { if rng.chance(0.2) { tiny(rng) } else { rng.moderate_nz(1e2) } } else { 0.0 };
+    if rng.chance(0.05) { v1 = tiny(rng); }
     let start_acc = if rng.chance(0.3) { rng.moderate(1e2) } else { 0.0 };
     // distances in the direction of travel (f64), with v measured along dir
     let (mv, ma) = (max_vel as f64, max_acc as f64);
@@ -58,6 +61,23 @@ pub fn gen_case(rng: &mut Rng, case: u64) -> MpCase {
         let d = ((pe as f32) as f64 - (ps as f32) as f64).abs();
         d >= 1.05 * need + 1e-3
     };
+    if rng.chance(0.08) {
+        // exact-arithmetic profiles: dyadic limits and speeds, so that accel + decel distance is exact in f32 and
+        // the displacement can be placed exactly ON the feasibility edge (zero-length cruise) or a few ulps
+        // either side of it (a constructor panic is an allowed outcome there)
+        let mv = *rng.pick(&[0.5f32, 1.0, 2.0, 4.0]);
+        let ma = *rng.pick(&[0.5f32, 1.0, 2.0, 4.0]);
+        let us = [0.0f32, 0.25, -0.25, 0.5, -0.5, 1.0, -1.0];
+        let dirf = dir as f32;
+        let (w0, w1) = (mv * *rng.pick(&us), mv * *rng.pick(&us));
+        let (a0, a1) = (w0 * dirf, w1 * dirf); // along the direction of travel
+        let need = (a0 + mv) / 2.0 * ((mv - a0) / ma) + (mv + a1) / 2.0 * ((mv - a1) / ma);
+        let p0 = rng.range_i64(-8, 8) as f32;
+        let mut pe = p0 + dirf * need;
+        for _ in 0..rng.below(4) { pe = if rng.chance(0.5) { pe.next_up() } else { pe.next_down() }; }
+        if !pe.is_finite() { pe = p0 + dirf * need; }
+        return MpCase { start: State::new_raw(p0, w0, start_acc), end: State::new_raw(pe, w1, end_acc), max_vel: mv, max_acc: ma, comfortable: false };
+    }
     if rng.chance(0.02) {
         // degenerate: zero displacement at cruise speed => a profile of zero duration (t1 = t2 = t3 = 0) is accepted
         let p = rng.moderate(1e4);
